@@ -1316,8 +1316,41 @@ def run_case(name, src, calls, expect_inlined):
     return None
 
 
+def imported_helper_case():
+    """A helper imported by name from a private module of the package is expanded at its calls when every free name of its body
+    means the same in both modules (``split``: PAT is imported alongside); not otherwise (``shadow`` reads the other module's LIM)."""
+    other = ("import re\nPAT = re.compile('(?P<a>x+)(?P<b>y*)')\nLIM = 3\n"
+             "def split(s):\n    m = PAT.match(s)\n    if m is None:\n        return None\n    return m.group('a', 'b')\n"
+             "def shadow(s):\n    return len(s) > LIM\n")
+    src = ("from ._priv import PAT, split, shadow\nLIM = 1\n"
+           "def f(s):\n    r = split(s)\n    if r is None:\n        return 'lit'\n    a, b = r\n    return a + '|' + b\n"
+           "def g(s):\n    return shadow(s)\n")
+    normalize._ANCHORS = set()
+    new, n = normalize.normalize_tree(ast.parse(src), lambda ident: False, lambda node: ast.parse(other) if node.module == '_priv' else None)
+    out = ast.unparse(new)
+    names = lambda fn: [c.func.id for s_ in new.body if isinstance(s_, ast.FunctionDef) and s_.name == fn for c in ast.walk(s_)
+                        if isinstance(c, ast.Call) and isinstance(c.func, ast.Name)]
+    if 'split' in names('f') or 'shadow' not in names('g'):
+        return 'imported helper: split must be expanded in f, shadow must stay a call in g\n' + out
+    go = {}
+    exec(compile(other, '<priv>', 'exec'), go)
+    res = []
+    for text in (src, out):
+        g_ = dict((k, go[k]) for k in ('PAT', 'split', 'shadow'))
+        exec(compile(text.split('\n', 1)[1], '<mod>', 'exec'), g_)
+        res.append([g_['f']('xxy'), g_['f']('q'), g_['f']('x'), g_['g']('abcd'), g_['g']('ab')])
+    if res[0] != res[1]:
+        return 'imported helper: original %r, normalised %r\n%s' % (res[0], res[1], out)
+    return None
+
+
 def main():
     bad = 0
+    msg = imported_helper_case()
+    print('%-4s %s' % ('FAIL' if msg else 'ok', 'helper imported from a private module'))
+    if msg:
+        print('     ' + msg.replace('\n', '\n     '))
+        bad += 1
     for name, src, calls, exp in CASES:
         try:
             msg = run_case(name, src, calls, exp)
